@@ -303,6 +303,10 @@ func c08Result(cx *explore.Ctx, q run.Query, r run.Result) {
 	h, _ := run.Hash(r)
 	cx.L.OutcomeHash(h)
 	// exactness of keyword / bool sets at top-level positions
+	if _, isTD := cons.(schema.TypeDeclaration); isTD && !top {
+		// type declarations are completed inside their own call syntax at any depth
+		c08LiteralRoundTrip(cx, q, cons, cands, attr, add)
+	}
 	if top {
 		c08Exact(cx, q, cons, cands, attr, add)
 		c08LiteralRoundTrip(cx, q, cons, cands, attr, add)
@@ -514,6 +518,10 @@ func C08(tier string) int {
 func c08LiteralRoundTrip(cx *explore.Ctx, q run.Query, cons schema.Constraint, cands lang.Candidates, attr *hclsyntax.Attribute, add func(clause, site, detail string)) {
 	lv, ok := cons.(schema.LiteralValue)
 	_, isLT := cons.(schema.LiteralType)
+	if _, isTD := cons.(schema.TypeDeclaration); isTD {
+		// a type declaration candidate is a skeleton like a literal of a type: it only has to be well-formed
+		isLT = true
+	}
 	if q.Kind != run.Completion || (!ok && !isLT) || (ok && (lv.Value.IsNull() || !lv.Value.IsWhollyKnown())) {
 		return
 	}
@@ -536,6 +544,11 @@ func c08LiteralRoundTrip(cx *explore.Ctx, q run.Query, cons schema.Constraint, c
 			if !isLT && !strings.Contains(cd.TextEdit.NewText, "=") {
 				continue
 			}
+		case lang.AttributeCandidateKind:
+			// (the `name = type` item of an object type declaration)
+			if _, isTD := cons.(schema.TypeDeclaration); !isTD {
+				continue
+			}
 		default:
 			continue
 		}
@@ -543,10 +556,31 @@ func c08LiteralRoundTrip(cx *explore.Ctx, q run.Query, cons schema.Constraint, c
 		if er.Start.Byte < 0 || er.End.Byte > len(cx.Src) || er.Start.Byte > er.End.Byte {
 			continue
 		}
+		// the snippet form of a fixed value inserts the same text as the plain form (there is nothing to fill in)
+		if ok && cd.TextEdit.Snippet != "" {
+			if stops, rendered := scanSnippet(cd.TextEdit.Snippet); len(stops) == 0 && rendered != cd.TextEdit.NewText {
+				add("literal:snippet-inserts-other-text", "literal", fmt.Sprintf("candidate %q: the snippet %q inserts %q, the plain text is %q", cd.Label, cd.TextEdit.Snippet, rendered, cd.TextEdit.NewText))
+			}
+		}
 		text := string(cx.Src[:er.Start.Byte]) + cd.TextEdit.NewText + string(cx.Src[er.End.Byte:])
 		f, d := hclsyntax.ParseConfig([]byte(text), cx.Case.File, hcl.InitialPos)
 		cx.L.Count("literal_round_trips", 1)
-		if d.HasErrors() && !origClean {
+		_, isTD := cons.(schema.TypeDeclaration)
+		if isTD && cd.Kind == lang.AttributeCandidateKind {
+			// the `name = type` item belongs between the braces of an object type
+			inside := false
+			_ = hclsyntax.VisitAll(attr.Expr, func(n hclsyntax.Node) hcl.Diagnostics {
+				if oc, ok := n.(*hclsyntax.ObjectConsExpr); ok && oc.OpenRange.End.Byte <= er.Start.Byte && er.End.Byte <= oc.SrcRange.End.Byte-1 && oc.SrcRange.End.Byte > oc.OpenRange.End.Byte {
+					inside = true
+				}
+				return nil
+			})
+			if !inside && origClean {
+				add("type-declaration:attribute-item-outside-braces", "type-declaration", fmt.Sprintf("the object attribute item %q is offered at bytes %d-%d, which is not between the braces of an object type", cd.Label, er.Start.Byte, er.End.Byte))
+				continue
+			}
+		}
+		if d.HasErrors() && (!origClean || isTD) {
 			// the file was broken before: the remaining errors can only be pinned on the candidate if a plain
 			// `null` at the same place would have left a sound file (the value was merely missing)
 			probe := string(cx.Src[:er.Start.Byte]) + "null" + string(cx.Src[er.End.Byte:])
